@@ -21,7 +21,12 @@ CHECKS = {
    text="All histories of full-text versions (6-7 versions per file incl. rename, shift, removal, syntax break, identical re-send) over 3 files (quick, depth 3) / 4 files incl. an imported helper (thorough, depth 4); after EVERY transition the live index equals, as multisets, a fresh server fed the last valid contents; the undeclared findings of the last-changed document equal fresh analysis; all answers equal the fresh server's for some feed order.",
    note="State identity = per-file (current, last valid) versions + depth; merging is sound because the oracle is evaluated per transition before merging. The existential over feed orders deliberately excludes registration-order dependence (C08). Queries are not asked inside currently-invalid documents.", ref="4/C06"), "C16": dict(engine="E3", technique="bounded-exhaustive enumeration of small dependency graphs x scopes x registration orders (+ hash-seed sweep) on the real diagnostics, against a reference graph over definitions",
    text="Definition slots = 3 names × 3 files (root conftest, sub conftest, test module); every set of ≤3 slots with every dependency list (≤2 of {a,b,c,unknown}; thorough also 4 slots with ≤1) and every scope vector (all 5 scopes for ≤2 slots, subsets for 3), under all 6 analysis orders and a sweep of hash seeds; the reference graph resolves each dependency from the depending fixture's file by PytestLookup: every reported path must be a closed chain of definitions, every cyclic SCC and every definition on a cycle must be reported, overrides with a parent are not cycles, scope mismatches are exactly the narrower resolved dependencies, and reports are identical across orders, seeds and recomputation.",
-   note="Hash seeds are a labelled sweep (2^128 keys cannot be enumerated). Trusted: reference model, getrandom shim pinning RandomState per fresh thread.", ref="4/C16"),
+   note="Hash seeds are a labelled sweep (2^128 keys cannot be enumerated). Trusted: reference model, getrandom shim pinning RandomState per fresh thread.", ref="4/C16"), "C08": dict(engine="E3+E1 link", technique="exhaustive enumeration of all permutations of the per-file analysis order (both analysis paths) on workspaces with colliding names; hash-seed sweep; real rayon scan as conformance",
+   text="For every workspace with colliding fixture names (hand-written plugin / third-party / double-import duplicates and cross-file cycles, every C01 layout with ≥2 defining files, every C02 chain with ≥2 links; ≤5 files quick, ≤6 thorough) EVERY permutation of the per-file analysis order is run through analyze_file and through the scan's no-cleanup path; all answers (go-to-definition at every usage, references of every definition, available fixtures, cycles, scope mismatches, unused list, workspace and document symbols) must be identical. Hash seeds are swept (labelled sweep); the real scan_workspace runs on materialised trees with rayon pools of 1, 2 and 16 threads as conformance.",
+   note="Thread schedule is reduced to analysis order by C09 (every interleaving is index-equivalent to a sequential order). Undeclared-fixture findings are excluded (analysis-time by design, judged by C06). Symbols are compared as multisets.", ref="4/C08"),
+ "C09": dict(engine="E1", technique="stateless model checking of the real code: exhaustive schedule exploration (iterative preemption bounding) under a controlled scheduler hooked into DashMap's shard locks",
+   text="6 (quick) / 10 (thorough) scenarios of 2–3 threads analysing distinct files that share fixture names (incl. 'A loses its last definition while B adds one', scan workers via the no-cleanup path, editor vs scan worker, non-initial pre-states), under two key placements (all keys of a map in one shard; 2 shards by hash): EVERY schedule with ≤2 (2 threads; thorough ≤3) / ≤1 (3 threads; thorough ≤2) preemptions, scheduling points = every shard-lock acquisition of the real analyze_file / analyze_file_fresh. At quiescence the index must equal the result of some sequential order and satisfy the structural invariants; deadlocks and horizon overruns are violations.",
+   note="Trusted: vendored dashmap 6.1.0 with 4 hook sites in lock.rs, the scheduler's lock model (reader-preferring RwLock, checked against the source), getrandom shim. Replays of a prefix must reproduce the identical granted-operation sequence or the run is a machinery error. Not covered: interleavings inside std::sync::Mutex sections (none contain DashMap calls here), more than 3 threads, higher preemption bounds.", ref="4/C09"),
 }
 m = {
  "version": 1,
